@@ -157,6 +157,11 @@ fn oracle(h: &H, batch_first_index: &HashMap<u64, usize>, res: &str, out: &mut O
                 );
             }
             None if !flagged => {
+                // known finding K-n: only the newest quote is remembered, so a quote that reports less than some OLDER
+                // delivered quote dated before it is not noticed (outside the `_partial` theorem's hypothesis): counted
+                if qs.iter().any(|a| qs.iter().any(|b| a.0 < b.0 && (b.1 < a.1 || b.2 < a.2))) {
+                    out.count("oracle-skipped:K-n-lesser-than-an-older-quote-unflagged");
+                }
                 // nothing inconsistent by sequence; if additionally nothing could be out of sync, the newest quote must be remembered
                 let newest = qs.iter().max_by_key(|q| q.0).unwrap();
                 let unique = qs.iter().filter(|q| q.0 == newest.0).count() == 1;
@@ -247,6 +252,11 @@ fn main() {
         v.push("reset".into());
         v.push(format!("deliver {} {} {}", q(1, -300 * S, 5, 5), q(2, -300 * S, 9, 9), q(1, -100 * S, 6, 6)));
         v.push(format!("deliver {} {}", q(2, -200 * S, 8, 9), q(1, -200 * S, 5, 5)));
+        // K-n: q3 reports fewer payments than the older q1, but is compared with the remembered q2 only
+        v.push("reset".into());
+        v.push(format!("deliver {}", q(1, -300 * S, 10, 10)));
+        v.push(format!("deliver {}", q(1, -100 * S, 12, 12)));
+        v.push(format!("deliver {}", q(1, -200 * S, 11, 9)));
         let mut n = 0;
         while n < args.n {
             let before = v.len();
